@@ -1049,10 +1049,14 @@ def judge_c(res: Result, item: dict, doc: dict, exchanges: list, machine: Any, e
             if location == "header":
                 case_container = {k.lower(): v for k, v in dict(case_container).items()}
             case_value = case_container.get(name.lower() if location == "header" else name, ABSENT)
-            sig = {"part": "c", "location": location, "explicit_location": "." in pname,
-                   "target_by": "operationRef" if "operationRef" in link else "operationId", **expression_facts(expr, source)}
+            facts = expression_facts(expr, source)
+            feature = facts.get("feature", "other")
+            # coarse on purpose (one defect = few signatures): only the expression machinery involved, the rest is detail
+            sig = {"part": "c", "expression_class": "pointer_escape" if feature.startswith("pointer_escape") else
+                   feature if feature in ("regex", "hash_in_literal_text", "array_index_not_rfc6901", "no_such_body") else "plain"}
             pdetail = detail | {"parameter": pname, "expression": expr, "reference": _plain(ref), "sent_on_wire": wire,
-                                "case_value": _plain(case_value)}
+                                "case_value": _plain(case_value), "location": location, "explicit_location": "." in pname,
+                                "target_by": by, **facts}
             if ref[0] == "undecided":
                 res.count("c_undecided_parameter")
                 continue
@@ -1070,12 +1074,12 @@ def judge_c(res: Result, item: dict, doc: dict, exchanges: list, machine: Any, e
                 continue
             res.count("c_parameters_checked")
             if case_value is ABSENT or not rtexpr.same(case_value, expected):
-                res.violation({**sig, "kind": "link_parameter_not_the_denoted_value", "expected_type": _typename(expected.value)}, pdetail)
+                res.violation({**sig, "kind": "link_parameter_not_the_denoted_value"}, pdetail)
                 continue
             if isinstance(expected.value, (str, int)) and not isinstance(expected.value, bool) and _wire_safe(expected.value, location):
                 res.count("c_wire_values_checked")
                 if wire != str(expected.value):
-                    res.violation({**sig, "kind": "wire_value_differs_from_denoted_value", "expected_type": _typename(expected.value)}, pdetail)
+                    res.violation({**sig, "kind": "wire_value_differs_from_denoted_value", "location": location}, pdetail)
         # 3. body
         if "requestBody" in link:
             merge = (link.get("x-schemathesis") or {}).get("merge_body", True)
